@@ -18,6 +18,10 @@ CLAIMED = {
  "C10": ("C", "exploration", "cw4-stake with native and cw20 stake, tokens_per_weight / min_bond / unbonding period drawn per run, amounts across u128, foreign-token and fake-token attempts, donations; per-call stake/claim relation from in-frame snapshots, Claim checked against the oracle's own unbond ledger and clock, contract holdings == stakes + claims + donations after every event, weight == floor(stake/tpw) in exact arithmetic; quiescence: everyone exits and the contract ends with exactly the donations.", "as C01", "5/C10"),
  "C14": ("C", "exploration", "Histories of UpdateAdmin/AddHook/RemoveHook/UpdateMembers/bond/unbond by admins, former admins and strangers with Sinks as hooks (some failing, some re-entering as admin); in-frame pre/post snapshots decide who may change what; hook notifications are replayed over the pre-membership and must yield exactly the post-membership, one per registered hook, delivered exactly once.", "as C01", "5/C14"),
  "C15": ("C", "exploration", "cw3-flex with native and cw20 deposits, refunds on/off: Propose with exact, missing, short, excess and wrong-denom payment; refund messages may appear only in Execute (always) or Close (iff enabled), once per proposal; failed pull/refund injected; quiescence closes/executes everything and requires every promised deposit to have come back.", "as C01; proposal payloads never spend the deposit denomination", "5/C15"),
+ "C07": ("B", "exploration", "Both proxies on the simulated chain with bank and recording staking/distribution/gov/ibc/stargate modules; callers of every class (admin, subkey, removed admin, stranger) submit lists of 0-4 messages of every CosmosMsg kind after histories of admin, allowance and permission changes; the oracle decides coverage from the in-frame pre-snapshot, requires Response.messages == submitted list, and compares what modules/contracts actually received from the proxy with what its successful calls returned; relayed messages are failed early/late by injection.", "as C01", "5/C07"),
+ "C08": ("B", "exploration", "Subkey spending with 1-3 sends of 1-3 coins (duplicate denoms, several sends per denom) racing admin increases/decreases with expiries around the clock; exact per-denom deduction from in-frame snapshots, other subkeys untouched, cumulative relayed <= granted ledger over committed calls, failed relays leave no deduction.", "as C01; admin callers are exempt from deduction", "5/C08"),
+ "C16": ("B", "exploration", "Differential probe on the states simulated histories reach: CanExecute{sender,msg} is queried and Execute{msgs:[msg]} by the same sender is submitted as the very next transaction in the same block; the answer must equal whether the proxy's own execute returned Ok (downstream success is irrelevant).", "a state probe rather than an interleaving property (DESIGN.md section 5/C16)", "5/C16"),
+ "C17": ("B", "exploration", "Histories of UpdateAdmins (empty lists, duplicates, self-removal), Freeze races, allowance and permission calls by admins, removed admins, subkeys and strangers on mutable and immutable proxies; in-frame pre/post AdminList and tables decide who changed what; a frozen list must be identical at every later observation.", "as C01", "5/C17"),
  "C19": ("A", "exploration", "After every event the single-allowance query, the owner listing and the spender listing are compared for all actor pairs and all listed pairs; migrations from a reconstructed pre-0.14 layout (spender index deleted by storage surgery, old cw2 version) are injected at arbitrary points of live histories.", "pre-0.14 layout reconstructed from migrate(); as C01", "5/C19"),
 }
 NA = {
